@@ -215,7 +215,9 @@ def opaque_cases(tier):
         fn = "function fo(p) return undefined is begin return %s p; end;" % o
         for a in V1:
             yield fn, "fo(%s)" % a, "ounop:" + o
-    for m, ar in (("count()", 1), ("at(q)", 2), ("concat(q)", 2), ("delete(q)", 2), ("put(q, r)", 3), ("insert(q, r)", 3), ("set@1(q)", 2), ("set@2(q)", 2)):
+    for m, ar in (("count()", 1), ("at(q)", 2), ("concat(q)", 2), ("delete(q)", 2), ("put(q, r)", 3), ("insert(q, r)", 3), ("set@1(q)", 2), ("set@2(q)", 2),
+                  # ranks at and beyond the size of every tuple of the alphabet (2 and 3 items): the compile-time range check cannot apply
+                  ("set@3(q)", 2), ("set@4(q)", 2), ("set@5(q)", 2), ("set@4294967297(q)", 2)):
         params = ["p", "q", "r"][:ar]
         fn = "function fo(%s) return undefined is begin return p.%s; end;" % (", ".join(params), m)
         if ar == 1:
